@@ -19,7 +19,21 @@ def rec_world():
     return d
 
 
-WORLDS = {'rec3': rec_world, 'mount2': families.mount2, 'chain3': families.chain3}
+def nestlog_world():
+    """two tasks of one class (same task name) in different namespaces, one an input of the other: the inner one runs
+    nested inside the outer one's run"""
+    return {
+        'name': 'nestlog',
+        'tasks': {'Yo': {'name': 'y', 'params': [P('py', default=0)], 'inputs': [families.by_name('n::y')], 'data': 'json'},
+                  'Yi': {'name': 'y', 'params': [P('py', default=0)], 'inputs': [], 'data': 'json'}},
+        'configs': {'root': {'medium': 'json', 'tasks': ['Yo'], 'values': {'py': 1}, 'uses': [{'config': 'sub', 'as': 'n'}]},
+                    'sub': {'medium': 'json', 'tasks': ['Yi'], 'values': {'py': 2}}},
+        'root': 'root',
+        'variants': {'v0': [], 'v1': [[['configs', 'sub', 'values', 'py'], 3]]},
+    }
+
+
+WORLDS = {'rec3': rec_world, 'mount2': families.mount2, 'chain3': families.chain3, 'nestlog': nestlog_world}
 
 
 def expected_records(m, fn, gen):
@@ -118,7 +132,7 @@ def judge(desc, spec):
 
 def plan(tier):
     out = []
-    for name in (['rec3', 'mount2'] if tier == 'quick' else ['rec3', 'mount2', 'chain3']):
+    for name in (['rec3', 'mount2', 'nestlog'] if tier == 'quick' else ['rec3', 'mount2', 'chain3', 'nestlog']):
         desc = WORLDS[name]()
         keys = list(desc['tasks'])
         faults = [(keys[0], 'raise'), (keys[0], 'raise_late'), (keys[-1], 'raise'), (keys[0], 'wrong_type')]
